@@ -3,7 +3,7 @@ indexing) and of sklearn's euclidean_distances.  Each states only what the contr
 is left unconstrained (an over-approximation, sound for proofs)."""
 import z3
 
-from .values import NdArr, Unsupported, z, fresh_name, is_sym
+from .values import NdArr, Unsupported, z, fresh_name, is_sym, is_int_like
 from . import counting
 
 posF1 = z3.Function("perm_pos", z3.ArraySort(z3.IntSort(), z3.IntSort()), z3.IntSort(), z3.IntSort())
@@ -122,15 +122,24 @@ def install(R):
 
     old_perm = R.fns.get("numpy.random.permutation")
 
-    def _permutation(E, x, *a, **kw):
+    def _permutation(E, x, *a, _rng="Global", _old=None, **kw):
         if isinstance(x, NdArr) and x.ndim == 1 and not conc(x.shape[0]):
             p = fresh_perm(E, "perm_idx", x.shape[0])
             fs, fp = x.snapshot(), p.snapshot()
             out = NdArr.from_fn("perm", (x.shape[0],), x.kind, lambda i: fs.get(fp.get(i)))
-            E.trace.append(dict(op="permutation", rng="Global", result=out))
+            E.trace.append(dict(op="permutation", rng=_rng, result=out))
             return out
-        return old_perm(E, x, *a, **kw)
+        if is_int_like(x) and not isinstance(x, bool) and not conc(x):
+            # permutation(n) for a symbolic n: a permutation of 0 .. n-1
+            E.safety("permutation-size", z(x) >= 0, None, "ValueError")
+            out = fresh_perm(E, "perm_idx", x)
+            E.trace.append(dict(op="permutation", rng=_rng, result=out))
+            return out
+        return (_old or old_perm)(E, x, *a, **kw)
     R.fns["numpy.random.permutation"] = _permutation
+    old_rs_perm = R.methods.get(("RandomState", "permutation"))
+    R.methods[("RandomState", "permutation")] = lambda E, recv, args, kwargs, node: _permutation(
+        E, *args, _rng=recv.fields["$rng"], _old=lambda E_, *a_, **k_: old_rs_perm(E_, recv, a_, k_, node), **kwargs)
 
     @reg("sklearn.metrics.pairwise.euclidean_distances")
     def _eucl(E, X, Y=None, Y_norm_squared=None, squared=False, X_norm_squared=None):
